@@ -1234,8 +1234,10 @@ impl Add<Duration> for NaiveTime {
     fn add(self, rhs: Duration) -> NaiveTime {
         // We don't care about values beyond `24 * 60 * 60`, so we can take a modulus and avoid
         // overflow during the conversion to `TimeDelta`.
-        // But we limit to double that just in case `self` is a leap-second.
-        let secs = rhs.as_secs() % (2 * 24 * 60 * 60);
+        // But we keep one whole day in that case, because a leap second `self` is left by any
+        // duration of a day or more.
+        let secs = rhs.as_secs();
+        let secs = if secs >= 24 * 60 * 60 { secs % (24 * 60 * 60) + 24 * 60 * 60 } else { secs };
         let d = TimeDelta::new(secs as i64, rhs.subsec_nanos()).unwrap();
         self.overflowing_add_signed(d).0
     }
@@ -1356,8 +1358,10 @@ impl Sub<Duration> for NaiveTime {
     fn sub(self, rhs: Duration) -> NaiveTime {
         // We don't care about values beyond `24 * 60 * 60`, so we can take a modulus and avoid
         // overflow during the conversion to `TimeDelta`.
-        // But we limit to double that just in case `self` is a leap-second.
-        let secs = rhs.as_secs() % (2 * 24 * 60 * 60);
+        // But we keep one whole day in that case, because a leap second `self` is left by any
+        // duration of a day or more.
+        let secs = rhs.as_secs();
+        let secs = if secs >= 24 * 60 * 60 { secs % (24 * 60 * 60) + 24 * 60 * 60 } else { secs };
         let d = TimeDelta::new(secs as i64, rhs.subsec_nanos()).unwrap();
         self.overflowing_sub_signed(d).0
     }
